@@ -36,6 +36,11 @@ pub struct KnownFindings {
 }
 
 pub fn load_known() -> KnownFindings {
+    // Maintenance switch: report the listed findings as violations again (used to regenerate the
+    // replay files under findings/ after the harness changed).
+    if std::env::var_os("NXV_IGNORE_KNOWN").is_some() {
+        return KnownFindings::default();
+    }
     let p = verif_dir().join("known_findings.json");
     match std::fs::read_to_string(&p) {
         Ok(s) => serde_json::from_str(&s).unwrap_or_else(|e| {
